@@ -71,14 +71,14 @@ def gen_case(run, i):
                 src=src, ref=ref, sm=sm.astype(int).tolist(), rm=rm.astype(int).tolist(), style=style)
 
 
-def impl_fit(case):
+def impl_fit(case, a=1.0, c=1.0):
     from homonim.kernel_model import KernelModel
     from homonim.raster_array import RasterArray
     from rasterio.transform import Affine
     import rasters
     h, w = case['h'], case['w']
-    src = np.array(case['src'], dtype='float32')
-    ref = np.array(case['ref'], dtype='float32')
+    src = np.array(case['src'], dtype='float32') * np.float32(a)
+    ref = np.array(case['ref'], dtype='float32') * np.float32(c)
     src[~np.array(case['sm'], dtype=bool)] = np.nan
     ref[~np.array(case['rm'], dtype=bool)] = np.nan
     tr = Affine(2, 0, 1000, 0, -2, 5000)
